@@ -355,6 +355,10 @@ def _cases(tier):
 
     all_cells((1, 1, 1, 1, 1))
     out.append(((0, 0, 0, 0, 0), -1))
+    # exactly one phase without instructions, every cell (round 5: C01-r5m2 skipped the post-setup validation of
+    # [before-assert] / [assert] when [setup] is empty; until then only the thorough tier had vectors with an empty phase)
+    for n in [(1, 0, 1, 1, 1), (1, 1, 0, 1, 1), (1, 1, 1, 0, 1), (1, 1, 1, 1, 0), (0, 1, 1, 1, 1)]:
+        all_cells(n)
     if tier == 'quick':
         n = (2, 2, 2, 2, 2)
         out.append((n, -1))
